@@ -2512,10 +2512,15 @@ def convert_to_dnf(formula: Formula, deep: bool = True) -> Formula:
             [
                 reduce(
                     lambda a, b: a & b,
-                    FrozenOrderedSet(split_conjunction(left & right)),
+                    FrozenOrderedSet(
+                        split_conjunction(
+                            reduce(lambda a, b: a & b, combination, true())
+                        )
+                    ),
                     true(),
                 )
-                for left, right in itertools.product(*disjuncts_list)
+                # A conjunction can have more than two arguments.
+                for combination in itertools.product(*disjuncts_list)
             ],
             false(),
         )
